@@ -383,5 +383,10 @@ m("C15", "proof",
   "Props/C15.lean proves gating for EVERY call sequence and every PDU on both sides (C15_dest_gating, "
   "C15_source_gating: every method of the models preserves 'only enabled indications delivered', generated "
   "invariants), parameter faithfulness at the emission sites (C15_segment_recv_params, "
-  "C15_finished_matches_pdu) and the originating-id rule (C15_originating_id).",
-  "Lean 4 whole-FSM invariant (generated Preserves lemmas) + differential correspondence", "§6 C15")
+  "C15_finished_matches_pdu) and the originating-id rule (C15_originating_id). Causal order at the sender "
+  "for EVERY call sequence (C15_source_order, generated invariant OrdOk over every method): every EOF-Sent and "
+  "Transaction-Finished indication is for the transaction opened by the latest Transaction indication and not "
+  "yet finished (C15_source_order_meaning, C15_source_finished_has_tid). The receiver's order (nothing after "
+  "Transaction-Finished within a transaction) is checked by the oracle on the traces, not proved.",
+  "Lean 4 whole-FSM invariants (generated Preserves lemmas) + differential correspondence", "§6 C15",
+  ["receiver-side causal order: oracle only"])
